@@ -33,7 +33,7 @@ var bias = ls.Bias{
 var hookHits = map[string]int{}
 
 func TestScenarios(t *testing.T) {
-	rt.Check(t, 3000, 300000, func(t *rapid.T) {
+	rt.Check(t, 3000, 5000000, func(t *rapid.T) {
 		p := ls.GenProgram(bias).Draw(t, "program")
 		res, bubble := ls.RunInBubble(t, p)
 		if bubble != "" {
